@@ -14,6 +14,8 @@ struct FileDesc {
     name: String, // with extension
     run: u32,
     t0: u32,
+    /// big-endian file
+    big: bool,
     t1: u32,
     events: Vec<Event>,
 }
@@ -145,7 +147,15 @@ fn random_run(rng: &mut Rng, max_events: u64) -> Vec<FileDesc> {
     let run = if rng.bool() { u32::MAX } else { [0u32, 5000, 11084, 2941][rng.below(4) as usize] };
     let mut serial = rng.below(1000) as u32;
     let mut ts = rng.next() as u32;
-    let mut t = 1_700_000_000u32 + rng.below(1000) as u32;
+    // start of the run: anywhere, or just below a carry out of the low byte(s) of the timestamp (a
+    // timestamp read in the wrong byte order sorts differently there: seed C19-7)
+    let mut t = match rng.below(3) {
+        0 => 0x6553_F0FCu32 + rng.below(4) as u32,
+        1 => 0x6553_FFFDu32 + rng.below(3) as u32,
+        _ => 1_700_000_000u32 + rng.below(1000) as u32,
+    };
+    // one run in three is written big-endian (midasio reads both byte orders)
+    let big = rng.below(3) == 0;
     let mut files = Vec::new();
     for i in 0..nfiles {
         let n = rng.below(max_events + 1);
@@ -158,7 +168,7 @@ fn random_run(rng: &mut Rng, max_events: u64) -> Vec<FileDesc> {
         let t1 = t + 1 + rng.below(5) as u32;
         t = t1 + rng.below(2) as u32; // next file starts 0 or 1 s later
         let ext = if rng.below(3) == 0 { "mid.lz4" } else { "mid" };
-        files.push(FileDesc { name: format!("run{:05}sub{:03}.{ext}", run % 100000, i), run, t0, t1, events });
+        files.push(FileDesc { name: format!("run{:05}sub{:03}.{ext}", run % 100000, i), run, t0, big, t1, events });
     }
     files
 }
@@ -172,7 +182,7 @@ fn write_run(dir: &PathBuf, files: &[FileDesc]) -> Prepared {
     let mut paths = Vec::new();
     for f in files {
         let p = dir.join(&f.name);
-        write_midas(&p, &file_bytes(f.run, f.t0, f.t1, &f.events));
+        write_midas(&p, &file_bytes_endian(f.run, f.t0, f.t1, &f.events, f.big));
         paths.push(p);
     }
     Prepared { dir: dir.clone(), paths }
@@ -367,9 +377,9 @@ pub fn generate(s: &mut Session, thorough: bool) -> bool {
                 for f in &bad {
                     let p = d2.join(&f.name);
                     if f.name.ends_with(".gz") {
-                        std::fs::write(&p, file_bytes(f.run, f.t0, f.t1, &f.events)).unwrap();
+                        std::fs::write(&p, file_bytes_endian(f.run, f.t0, f.t1, &f.events, f.big)).unwrap();
                     } else {
-                        write_midas(&p, &file_bytes(f.run, f.t0, f.t1, &f.events));
+                        write_midas(&p, &file_bytes_endian(f.run, f.t0, f.t1, &f.events, f.big));
                     }
                     paths.push(p);
                 }
